@@ -129,6 +129,7 @@ type Env struct {
 	Verbose bool
 	effOps  int
 	dlSig   string
+	infra   string
 }
 
 type hasher struct{ h uint64 }
@@ -183,6 +184,14 @@ func (e *Env) Fail(prop, sig, format string, a ...any) {
 }
 
 func (e *Env) Failed() bool { return e.viol != nil }
+
+// Infra records that the run could not be executed properly for a reason that
+// is not a property violation (reported with exit code 2, never as VIOLATION).
+func (e *Env) Infra(format string, a ...any) {
+	if e.infra == "" {
+		e.infra = fmt.Sprintf(format, a...)
+	}
+}
 
 func (e *Env) Result() *Result {
 	return &Result{Violation: e.viol, Stats: e.Stats, StateHash: e.state.h,
